@@ -237,7 +237,7 @@ func replaceExpr(expr Expr, from []string, to []Expr, clone bool) Expr {
 				if !clone {
 					return expr
 				}
-				newExprs = e.Exprs
+				newExprs = slc.Clone(e.Exprs) // because folding modifies it
 			}
 			return aFolder.Nary(e.Tok, newExprs)
 		}
@@ -246,7 +246,7 @@ func replaceExpr(expr Expr, from []string, to []Expr, clone bool) Expr {
 			return expr
 		}
 		if exprs == nil {
-			exprs = e.Exprs
+			exprs = slc.Clone(e.Exprs) // because folding modifies it
 		}
 		return aFolder.Nary(e.Tok, exprs)
 	case *Call:
